@@ -266,7 +266,7 @@ def run(ctx):
     ctx.prove(gens=["unicode"])
     model_ok = not any(b["name"].startswith("extraction") for b in ctx.broken)
     rng, tier = ctx.rng, ctx.tier
-    n = 250 if tier == "quick" else 8000
+    n = 250 if tier == "quick" else 30000
     workdir = tempfile.mkdtemp(prefix="c20_")
     disagreements = []
     kinds = {}
